@@ -41,7 +41,7 @@ for d in sorted(glob.glob(os.path.join(ROOT, "seeded", "C*-*"))):
     else:
         nm += 1
         rows.append("| %s | %s | **missed** (see below) |" % (sid, what))
-txt = "\n".join(rows) + "\n\ncaught by the quick command of the seed's property: %d; only by a thorough-tier instance: %d; missed: %d.\n" % (nq, nt, nm)
+txt = "\n".join(rows) + "\n\ncaught by the quick command of the seed's property: %d; only by an instance outside the quick tier of the seed's own property (thorough tier, or the quick tier of another property): %d; missed: %d.\n" % (nq, nt, nm)
 dp = os.path.join(ROOT, "DESIGN.md")
 s = open(dp).read()
 a = s.index("<!-- SEEDTABLE START -->") + len("<!-- SEEDTABLE START -->")
